@@ -937,10 +937,12 @@ func checkTupleProvenance(c *Ctx, prog []symIns, f *ssa.Function, asm *ssa.Call)
 			for _, a := range atoms {
 				n := a.Norm()
 				str := n.Cond.String()
-				if n.Sign && strings.Contains(str, ".Is4(") && strings.Contains(str, "recv.Src") {
+				// asked of the address whose bytes go into the program: Is4 of the unmapped address says nothing about the
+				// 16 bytes AsSlice returns for a v4-mapped address (the first four of which are zero)
+				if n.Sign && strings.Contains(str, ".Is4(") && strings.Contains(str, "recv.Src") && !strings.Contains(str, ".Unmap(") {
 					s4 = true
 				}
-				if n.Sign && strings.Contains(str, ".Is4(") && strings.Contains(str, "recv.Dst") {
+				if n.Sign && strings.Contains(str, ".Is4(") && strings.Contains(str, "recv.Dst") && !strings.Contains(str, ".Unmap(") {
 					d4 = true
 				}
 			}
